@@ -249,7 +249,7 @@ def check(ctx: Ctx) -> None:
     ctx.decides = ("on the direct-call graph from Group.terminate every blocking primitive executed in the caller's thread carries a timeout "
                    "derived from the `timeout` parameter (unbounded waits only inside the term/kill functions run by pool threads, or after a "
                    "successful bounded wait on the same object); the timeout arm of termkill calls killfunc, kill reaches Popen.kill, join_wait "
-                   "reaches Popen.wait; a raising id test dominates every process-creating call of makegateway; via-masters exit last.")
+                   "reaches Popen.wait (receiver joined first), each pair binds its own gateway (no late-bound closure); Gateway.exit cannot raise before later members were told to exit; a raising id test dominates every process-creating call of makegateway; via-masters exit last.")
     ctx.not_decided = "what remote interpreters do, real process liveness and timing."
     ctx.assume("A3")
     ft = repo.func("multi.Group.terminate")
